@@ -114,7 +114,11 @@ def modest(model, max_drop=0.3):
                 continue
             if k in ("RLoss", "VLoss", "PSwitch", "PMux", "Rectifier"):
                 if v[n] == 0.0:
-                    continue  # sleeping
+                    from .laws import is_active
+
+                    if k in ("PSwitch", "PMux") and not is_active(k, m.phase_conf[n], ph):
+                        continue  # sleeping in this phase
+                    return False  # the element drops its whole input: not modest
                 if abs(vin) - abs(v[n]) > max_drop * abs(vin) or abs(v[n]) > abs(vin):
                     return False
             if k == "LinReg":
